@@ -376,6 +376,9 @@ class TestCaseExecutor(AbstractTestCaseExecutor):
 
         with ter.ExecutionRecorder(test_case):
             output_suppression_context = OutputSuppressionContext()
+            # The code under test may call logging.disable(); that must not leak
+            # into Pynguin's own logging nor into later executions.
+            logging_disable_level = logging.root.manager.disable
             return_queue: Queue[ExecutionResult] = Queue()
             thread = threading.Thread(
                 target=self._execute_test_case,
@@ -412,6 +415,7 @@ class TestCaseExecutor(AbstractTestCaseExecutor):
                     # allows the EA to continue with the search process.
                     _LOGGER.error("Bug in Pynguin!")
                     result = ExecutionResult(timeout=True)
+            logging.disable(logging_disable_level)
             self._after_remote_test_case_execution(test_case, result)
             self._subject_properties.validate_execution_trace(result.execution_trace)
             return result
